@@ -359,6 +359,16 @@ theorem every_elision_is_recorded_at_its_three_dots (u : Sec.Uni) (content : Sec
   obtain ⟨p, hp, hd⟩ := Sec.dots_of_a_version_are_dots_of_the_file u content c hc m s h0 h1 h2
   exact ⟨s', e', p, hout, by rw [hadj]; exact hp, hd⟩
 
+/-- **What `rewrite` keeps, it keeps in place**: a byte of a version that lies in no augmentation is found in the augmented
+source at an offset that `posAdjuster.Pos` takes back to the byte's own offset - so the place of every token go/parser sees
+outside the elisions (an operand next to a `...`, the callee of a call with elided arguments) is its place in the version,
+and, through `version_offsets_are_patch_file_places`, in the patch file. -/
+theorem code_next_to_an_elision_keeps_its_place (src : List UInt8) (augs : List Fnd.Aug)
+    (hok : Fnd.AugsOK src 0 (Fnd.sortByStart augs)) (k : Nat) (hk : k < src.length)
+    (hout : ∀ a ∈ Fnd.sortByStart augs, ¬ (a.start ≤ k ∧ k < a.stop)) :
+    ∃ o, (Fnd.rewrite src augs).1[o]? = src[k]? ∧ Fnd.adjust (Fnd.rewrite src augs).2.2 o = k :=
+  Fnd.rewrite_retained_byte_maps_back src augs hok k hk hout
+
 /-- non-vacuity: the body `-foo(...)`, ` ...`, `+bar(...)`: the context line is line 2 of the patch in both versions -/
 example :
     let content : Sec.Bytes := "-foo(...)\n ...\n+bar(...)\n".toUTF8.toList
